@@ -175,8 +175,8 @@ PROPS = {
         kinds=[dict(kind="anytext", quick=12000, thorough=400000, corr=["acc", "fv", "wv", "dv"], oracle=[],
                     oracle_const=[("agree", "ok|-"), ("conv", "ok")], nontrivial=lambda req, A, B: A.get("acc", "") == "ooo"),
                dict(kind="forms", quick=24000, thorough=800000,
-                    corr=["f", "d", "f2d", "d2f", "h", "fvars", "dvars", "f2dvars", "d2fvars", "hvars", "br", "ur", "or", "dbr", "dur", "dor", "dtext", "f2dtext", "htext"],
-                    oracle=[("f_nf", "spec_nf"), ("d_nf", "spec_nf"), ("f2d_nf", "spec_nf"), ("d2f_nf", "spec_nf"), ("h_nf", "spec_nf"),
+                    corr=["f", "d", "f2d", "wo2d", "wo2dtext", "d2f", "h", "fvars", "dvars", "f2dvars", "d2fvars", "hvars", "br", "ur", "or", "dbr", "dur", "dor", "dtext", "f2dtext", "htext"],
+                    oracle=[("f_nf", "spec_nf"), ("d_nf", "spec_nf"), ("f2d_nf", "spec_nf"), ("wo2d_nf", "spec_nf"), ("d2f_nf", "spec_nf"), ("h_nf", "spec_nf"),
                             ("fvars", "svars"), ("dvars", "svars"), ("f2dvars", "svars"), ("d2fvars", "svars"), ("hvars", "svars"),
                             ("br", "sbr_lo", [], "superset"), ("br", "sbr_hi", [], "subset"), ("dbr", "sbr_lo", [], "superset"), ("dbr", "sbr_hi", [], "subset"),
                             ("ur", "sur_lo", [], "superset"), ("ur", "sur_hi", [], "subset"), ("dur", "sur_lo", [], "superset"), ("dur", "sur_hi", [], "subset"),
